@@ -212,11 +212,12 @@ def lookupSite (k : String × String) : List ((String × String) × Mask) → Op
 /-! net.c `janet_get_addrinfo(argv, offset, socktype, passive, is_unix)` is shared by net/address, net/connect (passive = 0)
     and net/listen (passive = 1: `AI_PASSIVE`, an address to bind and listen on).  `paramModes` names the parameter (index)
     whose *constant* argument value becomes the callee's tracked variable (`Op.call g m0`; the translator checks that the
-    callee never assigns it and passes 2 when the argument is not a constant). -/
+    callee never assigns it and that every call site passes an integer constant - anything else is an ExtractError).
+    A `janet_sandbox_assert(p ? A : B)` on that parameter becomes two guarded arms (`Op.modeGuard`). -/
 def paramModes : List (String × Nat) := [("janet_get_addrinfo", 3)]
 
 def needAddrinfo (md : Nat) : List Mask :=
-  if md == 0 then [capNetConnect] else if md == 1 then [capNetListen] else [capNetConnect, capNetListen]
+  if md == 0 then [capNetConnect] else [capNetListen]
 
 /-- requirement of call `name` made from C function `fn` while the tracked flags variable of the activation is `md`
     (`[]` = nothing required) -/
